@@ -57,7 +57,7 @@ static void seg_mode(int n) {
     if (op >= 6) { D = D / MI_COMMIT_SIZE * MI_COMMIT_SIZE; size = _mi_align_up(size, MI_COMMIT_SIZE); }   // the allocator only purges whole slices (asserted in debug builds)
 #endif
     if (D + size > total) size = total - D;
-    int inject = (rnd() % 5) < 2;
+    int inject = ((rnd() % 5) < 2) && !getenv("C07_NOINJECT");   // C13 drives the same steps without refusals
     long c0 = verif_calls, f0 = verif_faults_fired, e0 = vm_nev;
     verif_fail_from = 0; verif_fail_at = inject ? verif_calls : -1;
     const char* name; int ret = 1;
@@ -97,7 +97,7 @@ static void arena_mode(int n, long purge_delay) {
   struct { void* p; size_t blocks; mi_memid_t memid; int committed; } held[AB]; int nheld = 0;
   for (int it = 0; it < n; it++) {
     unsigned op = (unsigned)(rnd() % 10);
-    int inject = (rnd() % 5) < 2;
+    int inject = ((rnd() % 5) < 2) && !getenv("C07_NOINJECT");   // C13 drives the same steps without refusals
     long f0 = verif_faults_fired, c0 = verif_calls, e0 = vm_nev;
     if (op < 5 && nheld < AB) {
       size_t blocks = 1 + (size_t)(rnd() % 3); int commit = (rnd() % 4) != 0;
